@@ -3,6 +3,7 @@ package grpcdatasource
 import (
 	"errors"
 	"fmt"
+	"slices"
 
 	"github.com/tidwall/gjson"
 
@@ -25,6 +26,40 @@ func newEntityIndexMap(requestedEntityType string, representations []gjson.Resul
 		if representation.Get(typenameFieldName).String() == requestedEntityType {
 			indexMap = append(indexMap, i)
 		}
+	}
+	return indexMap
+}
+
+// requiredFieldsEntityTypes returns the entity types a required fields call was planned for: the member types
+// of its key message. It returns nil when the call does not restrict the types.
+func requiredFieldsEntityTypes(call *RPCCall) []string {
+	contextField := call.Request.Fields.ByName(contextFieldName)
+	if contextField == nil || contextField.Message == nil {
+		return nil
+	}
+	keyField := contextField.Message.Fields.ByName("key")
+	if keyField == nil || keyField.Message == nil {
+		return nil
+	}
+	return keyField.Message.MemberTypes
+}
+
+// newRequiredFieldsIndexMap builds the index map of a required fields call: the positions of the
+// representations the call was made for (see buildRequiredFieldsMessage). It returns nil when every
+// representation takes part, in which case the results are merged by their order alone.
+func newRequiredFieldsIndexMap(entityTypes []string, representations []gjson.Result) entityIndexMap {
+	if len(entityTypes) == 0 {
+		return nil
+	}
+	indexMap := make(entityIndexMap, 0, len(representations))
+	for i, representation := range representations {
+		typeName := representation.Get(typenameFieldName)
+		if !typeName.Exists() || slices.Contains(entityTypes, typeName.String()) {
+			indexMap = append(indexMap, i)
+		}
+	}
+	if len(indexMap) == len(representations) {
+		return nil
 	}
 	return indexMap
 }
